@@ -7,7 +7,7 @@ CLAIM = {
           'passes, 1..20 channels, any blocks incl. a short last one, the reader applied to the spec encoder\'s file '
           'returns the names, counts, header numbers, the frame words in channel/frame order and the synthesised X axis; '
           'bit_roundtrip_one_end_marker for the file without the final marker; mkBlocks_spec for blocks of fib frames), '
-          'frame_count, x_axis, ibm_header_eq_isingl (header decoder = RP66V1 ISINGL on every word), '
+          'frame_count, x_axis, x_axis_towards_stop (|spacing| steps towards the stop depth for either sign of the header spacing), ibm_header_eq_isingl (header decoder = RP66V1 ISINGL on every word), '
           'gen_floats_rel_error / gen_floats_ne (the frame decoder as coded is NOT the IBM value: exact factor '
           '2^24/(2^24-1), known finding F12). The model is tied to the source on every run by comparing it with the real '
           'create_bit_frame_array_from_file on files written by the spec encoder, on damaged files, and on single words. '
@@ -21,7 +21,7 @@ CLAIM = {
 
 RULE = ('files: random abstract content (1..4 passes, 1..20 distinct channel names, 0..~2500 frames, block size 1..64 '
         'frames incl. short last block and block size > frame count, IBM words from a mix of realistic values, zeros, '
-        'negative zero, extreme exponents, unnormalised and random words, up and down logs) encoded by the Lean spec '
+        'negative zero, extreme exponents, unnormalised and random words, up and down logs, header spacing of either sign) encoded by the Lean spec '
         'encoder, decoded by the model and by ReadBIT; a file is non-trivial when it has >= 2 frames and >= 1 non-zero '
         'value, distinct by (names, frame counts, block size, hash of data). words: structured + random 4-byte words '
         'through gen_floats / bytes_to_float / ISINGL. malformed: truncation at every byte of tiny files, damaged TIF '
@@ -29,20 +29,18 @@ RULE = ('files: random abstract content (1..4 passes, 1..20 distinct channel nam
 ASSUMPTIONS = [
     'channel names in a header are pairwise distinct and differ from "X   " (otherwise LogPass.FrameArray.append raises '
     'ExceptionFrameArray: modelled, compared in the malformed stream, outside the property)',
-    'the header spacing is a non-negative magnitude (as in the example data); negative spacing is explored separately '
-    'and recorded as finding C13-x-axis-negative-spacing',
     'file positions fit in 32 bits (TIF marker fields are u32)',
     'the file object is io.BytesIO: read(n) with n < 0 reads to the end (a real file raises ValueError for n < -1); '
     'only damaged TIF markers reach that call',
     'binary64 arithmetic stays in the normal range (no overflow/underflow): true for all sums of IBM single values with '
     'fewer than 2^700 frames',
 ]
+ANCHOR_FILES = ['src/TotalDepth/BIT/ReadBIT.py', 'src/TotalDepth/RP66V1/core/pRepCode.py', 'src/TotalDepth/common/LogPass.py']
 TRUSTED = ['modelled, not verified: io.BytesIO.read/tell/seek, struct.unpack("<3L"/">H"), bytes.decode("ascii"), '
            'CPython int/int true division (correctly rounded) and float +,-,* (IEEE binary64), numpy float64 array '
            'assignment, LogPass.FrameArray.append duplicate check, Python generator laziness of yield_tif_blocks/gen_floats']
 
 F12 = 'F12-gen-floats-mantissa-divisor'
-FNEG = 'C13-x-axis-negative-spacing'
 X_NAME = b'X   '
 
 
@@ -227,8 +225,8 @@ def gen_range(rng, n, neg_spacing=False):
     if neg_spacing:
         if ibm(sp) == 0: sp = ibm_encode(0.25)
         sp = bytes([sp[0] | 0x80]) + sp[1:]
-    elif ibm(sp) != 0:
-        sp = bytes([sp[0] & 0x7f]) + sp[1:]  # non-negative magnitude (zero may keep its sign bit)
+    elif ibm(sp) != 0 and rng.random() < 0.75:
+        sp = bytes([sp[0] & 0x7f]) + sp[1:]  # mostly a positive magnitude; otherwise the sign the generator drew
     ws[2] = sp
     return ws + [gen_word(rng), gen_word(rng)]
 
@@ -327,7 +325,6 @@ def oracle_file(ctx, R, passes, data, variant='full', fas='unset'):
     if len(fas) != len(passes):
         ctx.fail(case, f'{len(fas)} log passes read, {len(passes)} recorded'); return 1
     f12_values = 0
-    neg_sp = False
     for i, (p, fa) in enumerate(zip(passes, fas)):
         where = f'pass {i}: '
         names = [n.decode('ascii') for n in p['names']]
@@ -377,19 +374,8 @@ def oracle_file(ctx, R, passes, data, variant='full', fas='unset'):
                     x = x + d * mag
                 ok = ok or good
             if not ok:
-                # away from stop by exactly the header spacing when that spacing is negative: recorded finding
-                x, away = start, sp < 0 and stop != start
-                d = -dirs[0]
-                for v in xs:
-                    if v != x: away = False; break
-                    x = x + d * mag
-                if away:
-                    neg_sp = True
-                else:
-                    ctx.fail(case, where + f'X axis {xs[:4]}.. does not move from {start!r} by {mag!r} towards {stop!r}'); return 1
+                ctx.fail(case, where + f'X axis {xs[:4]}.. does not move from {start!r} by {mag!r} towards {stop!r}'); return 1
     nfail = 0
-    if neg_sp:
-        known_fail(ctx, case, 'X axis moves away from the stop depth (negative header spacing)', FNEG); nfail += 1
     if f12_values:
         known_fail(ctx, case, f'{f12_values} frame value(s) equal IBM(bytes)*2^24/(2^24-1) instead of IBM(bytes)', F12); nfail += 1
     return nfail
